@@ -39,6 +39,16 @@ def setup_paths():
     sys.path.insert(0, REPO_SRC)
 
 
+def nonneg_real(a):
+    """elementwise: a finite, real (imaginary part exactly zero) and >= 0.  `a >= 0` alone orders complex numbers
+    lexicographically and would accept 10.9-25.5j as 'non-negative'."""
+    import numpy as np
+    a = np.asarray(a)
+    if np.iscomplexobj(a):
+        return np.isfinite(a.real) & (a.imag == 0) & (a.real >= 0)
+    return np.isfinite(a) & (a >= 0)
+
+
 def h64(obj) -> int:
     """Stable 64-bit digest of a case description (repr of plain python data)."""
     return int.from_bytes(hashlib.blake2b(repr(obj).encode(), digest_size=8).digest(), 'big')
